@@ -691,7 +691,8 @@ func main() {
 	for si := 0; si < *nspecs; si++ {
 		g := &gen{r: r.Fork(), cov: cov}
 		sp := g.spec(*nops, si)
-		customPrincipal := si%2 == 1
+		// (not together with --with-flatten=remove-unused, which prunes the Principal definition nothing in the document refers to)
+		customPrincipal := si%2 == 1 && len(sp.GenFlags) == 0
 		specJSON, _ := json.Marshal(sp.JSON())
 		dir := filepath.Join(*work, fmt.Sprintf("s%d", si))
 		_ = os.RemoveAll(dir)
